@@ -111,6 +111,10 @@ def cards_txt(cards, sep=' ', ten='T'):
 
 def _seat_lines(r, fmt):
     idx = sorted(range(r['n']), key=lambda i: r['seats'][i])
+    if r.get('seat_line_order'):
+        # the seat LINES in another order (join order, attribute order): the
+        # seat numbers, not the line order, say where a player sits
+        idx = [idx[k] for k in r['seat_line_order']]
     return [fmt(r['seats'][i], r['names'][i], r['stacks'][i]) for i in idx]
 
 
@@ -410,7 +414,10 @@ def ipoker(r, sym='$', use_type6=False):
     shows = {e[1]: e[2] for e in r['events'] if e[0] == 'show'}
     L = [f'<game gamecode="{r["hand_id"]}">', '<general>',
          '<startdate>2009-07-06 12:34:56</startdate>', '<players>']
-    for i in sorted(range(r['n']), key=lambda i: r['seats'][i]):
+    order = sorted(range(r['n']), key=lambda i: r['seats'][i])
+    if r.get('seat_line_order'):
+        order = [order[k] for k in r['seat_line_order']]
+    for i in order:
         L.append(
             f'<player seat="{r["seats"][i]}" name="{nm[i]}" '
             f'chips="{m(r["stacks"][i])}" '
